@@ -82,6 +82,8 @@ def doc_pool():
         docs.sami_doc([(1000, [("en-US", "one"), ("fr-FR", "un")]), (2000, [("en-US", "&nbsp;")]), (2500, [("fr-FR", "deux<br/><i>d</i>")]), (3000, [("en-US", "three")])], ["en-US", "fr-FR"], class_css={"en-US": "margin-left: 2%; text-align: center; "}),
         docs.sami_doc([(1000, [("de-DE", "eins")]), (1500, [("es-ES", "uno"), ("en-US", "one")]), (2000, [("de-DE", "zwei")])], ["de-DE", "es-ES", "en-US"]),
         "<SAMI><BODY><SYNC><P class=ENCC>no start: reader raises</P></SYNC></BODY></SAMI>",
+        # a style sheet the reader rejects half-way (invalid colour after valid rules): every read must reject it again
+        docs.sami_doc([(1000, [("en-US", "one")]), (2000, [("en-US", "&nbsp;")])], ["en-US"], extra_css=".A { color: red; }\n.B { color: ffeedd; }\n.C { text-align: right; }"),
         # no <STYLE> block at all
         "<SAMI><BODY><SYNC start=1000><P>plain</P></SYNC><SYNC start=2000><P>&nbsp;</P></SYNC><SYNC start=3000><P>again</P></SYNC></BODY></SAMI>",
         # two classes declare the same language with different layouts (which one wins must not depend on hashing)
@@ -110,7 +112,7 @@ READ_OPTS = {
     "sami": [{}],
     "scc": [{}, {"read": {"offset": 1, "simulate_roll_up": True}}],
 }
-REP_EXTRA = {("sami", 3)}  # further documents after which the quick tier also explores edits / writes (style-less SAMI)
+REP_EXTRA = {("sami", 4)}  # further documents after which the quick tier also explores edits / writes (style-less SAMI)
 EDITS = ["add_style", "caption_style", "style_dict", "append_caption", "node_text", "set_layout", "style_node_content", "layout_inplace"]
 WRITES = ["DFXPWriter", "SAMIWriter", "WebVTTWriter"]
 
